@@ -9,6 +9,7 @@ import (
 	"github.com/ipfs/go-cid"
 	"pgregory.net/rapid"
 
+	ipfslog "berty.tech/go-ipfs-log"
 	"berty.tech/go-ipfs-log/iface"
 
 	"verifharness/ev"
@@ -17,20 +18,21 @@ import (
 )
 
 type c09Prog struct {
-	World    sim.Prog   `json:"world"`
-	Replica  int        `json:"replica"`
-	Loads    []loadSpec `json:"loads"`
-	Merge    bool       `json:"merge"`              // the chosen replica first merges the others (multi-headed state)
-	HeadPerm []int      `json:"headPerm,omitempty"` // order in which the published head list names the heads (empty: the log's own order)
-	Known    []int      `json:"known,omitempty"`    // entries passed as FetchOptions.Exclude ("already have")
-	Timeout  bool       `json:"timeout,omitempty"`  // pass a generous fetch timeout (must not change anything)
-	FSort    bool       `json:"fsort,omitempty"`    // pass the ordering as FetchOptions.SortFn
-	Shared   bool       `json:"shared,omitempty"`   // the caller hands the SAME head slice to every load instead of a copy
-	Progress bool       `json:"progress,omitempty"` // pass a (drained) progress channel
-	NoIO     bool       `json:"noIO,omitempty"`     // default codec: leave LogOptions.IO unset
-	Slow     int        `json:"slow,omitempty"`     // k > 0: one block of the log (the k-th, mod) takes 2.6 s to be read during the first ungated load - slow, not missing: nobody set a deadline, so the load waits for it
-	Rival    int        `json:"rival,omitempty"`    // k > 0: while an ungated load runs, another load of the same heads runs in the same process and gives up (deadline) after about k block reads; every read takes 1 ms meanwhile. What the rival does is no business of the load under test
-	Earlier  int        `json:"earlier,omitempty"`  // 0: the log is published once; k > 0: every replica also published after each k-th operation of the history (and before the final merges)
+	World     sim.Prog   `json:"world"`
+	Replica   int        `json:"replica"`
+	Loads     []loadSpec `json:"loads"`
+	Merge     bool       `json:"merge"`               // the chosen replica first merges the others (multi-headed state)
+	HeadPerm  []int      `json:"headPerm,omitempty"`  // order in which the published head list names the heads (empty: the log's own order)
+	Known     []int      `json:"known,omitempty"`     // entries passed as FetchOptions.Exclude ("already have")
+	Timeout   bool       `json:"timeout,omitempty"`   // pass a generous fetch timeout (must not change anything)
+	FSort     bool       `json:"fsort,omitempty"`     // pass the ordering as FetchOptions.SortFn
+	Shared    bool       `json:"shared,omitempty"`    // the caller hands the SAME head slice to every load instead of a copy
+	Progress  bool       `json:"progress,omitempty"`  // pass a (drained) progress channel
+	NoIO      bool       `json:"noIO,omitempty"`      // default codec: leave LogOptions.IO unset
+	Slow      int        `json:"slow,omitempty"`      // k > 0: one block of the log (the k-th, mod) takes 2.6 s to be read during the first ungated load - slow, not missing: nobody set a deadline, so the load waits for it
+	Rival     int        `json:"rival,omitempty"`     // k > 0: while an ungated load runs, another load of the same heads runs in the same process and gives up (deadline) after about k block reads; every read takes 1 ms meanwhile. What the rival does is no business of the load under test
+	ReuseOpts int        `json:"reuseOpts,omitempty"` // k > 0: the caller keeps one LogOptions value for all its loads, and has used it before: for a load of the history below the k-th (mod) entry of the log, through the k-th (mod 4) loader
+	Earlier   int        `json:"earlier,omitempty"`   // 0: the log is published once; k > 0: every replica also published after each k-th operation of the history (and before the final merges)
 }
 
 func genLoadSpec(t *rapid.T) loadSpec {
@@ -68,6 +70,9 @@ func genC09(t *rapid.T) c09Prog {
 	n := rapid.IntRange(1, 3).Draw(t, "nloads")
 	for i := 0; i < n; i++ {
 		p.Loads = append(p.Loads, genLoadSpec(t))
+	}
+	if rapid.IntRange(0, 3).Draw(t, "reuseOpts") == 0 {
+		p.ReuseOpts = rapid.IntRange(1, 1<<12).Draw(t, "reuseOptsK")
 	}
 	return p
 }
@@ -160,6 +165,31 @@ func runC09(tb ev.TB, p c09Prog) ev.Result {
 	allEntries := r.Log.GetEntries().Slice()
 	for _, k := range p.Known {
 		extra.Known = append(extra.Known, allEntries[k%len(allEntries)])
+	}
+	if p.ReuseOpts > 0 && len(allEntries) > 0 {
+		// one options value for every load of this caller - and it has been through a load before: of the history below
+		// some older entry, i.e. of ANOTHER state of the log
+		classes = append(classes, "one-LogOptions-value-for-all-loads")
+		extra.LogOpts = &ipfslog.LogOptions{ID: sim.LogID, SortFn: world.SortFn(w.Order), IO: w.IO}
+		old := allEntries[p.ReuseOpts%len(allEntries)]
+		for i := 0; i < len(allEntries) && old.GetLogID() != sim.LogID; i++ { // (entries of a continued older log are not this log's)
+			old = allEntries[(p.ReuseOpts+i)%len(allEntries)]
+		}
+		if old.GetLogID() == sim.LogID {
+			oldJSON := &iface.JSONLog{ID: sim.LogID, Heads: []cid.Cid{old.GetHash()}}
+			oldManifest, err := w.IO.Write(ctx, w.Store.API(), oldJSON, nil)
+			if err != nil {
+				tb.Fatalf("harness: %v", err)
+			}
+			first, err := doLoad(ctx, w.Store.API(), w, loaderNames[p.ReuseOpts%4], oldManifest, oldJSON, []iface.IPFSLogEntry{old}, old.GetHash(), nil, 0, nil, 0, loadExtra{LogOpts: extra.LogOpts})
+			if err != nil {
+				tb.Fatalf("load of the history below %s failed: %v", world.Short(old.GetHash().String()), err)
+			}
+			want := w.Reg.Past([]string{old.GetHash().String()}, r.Model)
+			if got := world.SetOf(world.Hashes(first.GetEntries())); !got.Equal(want) {
+				tb.Fatalf("load of the history below %s: entries %v, want %v", world.Short(old.GetHash().String()), world.Shorts(got.Sorted()), world.Shorts(want.Sorted()))
+			}
+		}
 	}
 	for li, spec := range p.Loads {
 		loader := loaderNames[spec.Loader%4]
